@@ -22,6 +22,8 @@ mod patch_flags;
 mod resolve_type;
 mod slot_flag;
 mod util;
+#[cfg(feature = "verif-hooks")]
+pub mod verif;
 
 const FRAGMENT: &str = "Fragment";
 const KEEP_ALIVE: &str = "KeepAlive";
@@ -102,6 +104,8 @@ where
     fn transform_jsx_element(&mut self, jsx_element: &JSXElement) -> Expr {
         if self.options.optimize {
             self.slot_flag_stack.push(SlotFlag::Stable);
+            #[cfg(feature = "verif-hooks")]
+            verif::slot_push(self.slot_flag_stack.len());
         }
 
         let is_component = self.is_component(&jsx_element.opening.name);
@@ -232,6 +236,8 @@ where
     fn transform_jsx_fragment(&mut self, jsx_fragment: &JSXFragment) -> Expr {
         if self.options.optimize {
             self.slot_flag_stack.push(SlotFlag::Stable);
+            #[cfg(feature = "verif-hooks")]
+            verif::slot_push(self.slot_flag_stack.len());
         }
 
         Expr::Call(CallExpr {
@@ -697,6 +703,8 @@ where
                                 if !ident.to_id().1.has_mark(self.unresolved_mark) =>
                             {
                                 self.slot_flag_stack.fill(SlotFlag::Dynamic);
+                                #[cfg(feature = "verif-hooks")]
+                                verif::slot_fill(self.slot_flag_stack.len());
                             }
                             _ => {}
                         }
@@ -713,6 +721,8 @@ where
                                 if !ident.to_id().1.has_mark(self.unresolved_mark) =>
                             {
                                 self.slot_flag_stack.fill(SlotFlag::Dynamic);
+                                #[cfg(feature = "verif-hooks")]
+                                verif::slot_fill(self.slot_flag_stack.len());
                             }
                             _ => {}
                         }
@@ -734,6 +744,10 @@ where
             .map(Some)
             .collect::<Vec<_>>();
 
+        #[cfg(feature = "verif-hooks")]
+        if self.options.optimize {
+            verif::slot_pop(self.slot_flag_stack.len());
+        }
         let slot_flag = if self.options.optimize {
             self.slot_flag_stack.pop().unwrap_or(SlotFlag::Stable)
         } else {
@@ -1056,6 +1070,18 @@ where
 
     fn build_iife(&mut self, elems: Vec<Option<ExprOrSpread>>) -> Vec<Option<ExprOrSpread>> {
         let left = self.assignment_left.take();
+        #[cfg(feature = "verif-hooks")]
+        verif::event(format!(
+            "iife_take left={} matched={}",
+            left.as_ref().map(|left| &*left.sym).unwrap_or("-"),
+            left.as_ref()
+                .map(|left| elems.iter().any(|elem| matches!(
+                    elem,
+                    Some(ExprOrSpread { spread: None, expr })
+                        if matches!(&**expr, Expr::Ident(ident) if ident.sym == left.sym)
+                )))
+                .unwrap_or_default()
+        ));
         if let Some(left) = left {
             elems
                 .into_iter()
@@ -1138,6 +1164,15 @@ where
 
         module.visit_mut_children_with(self);
 
+        #[cfg(feature = "verif-hooks")]
+        if !self.injecting_consts.is_empty() || !self.injecting_vars.is_empty() {
+            verif::event(format!(
+                "drain site=module vars={} consts={}",
+                self.injecting_vars.len(),
+                self.injecting_consts.len()
+            ));
+        }
+
         if !self.injecting_consts.is_empty() {
             module.body.insert(
                 0,
@@ -1216,10 +1251,31 @@ where
                 })),
             );
         }
+
+        #[cfg(feature = "verif-hooks")]
+        verif::event(format!(
+            "module_end pending_vars={} pending_consts={} stack_depth={} assignment_left={}",
+            self.injecting_vars.len(),
+            self.injecting_consts.len(),
+            self.slot_flag_stack.len(),
+            self.assignment_left
+                .as_ref()
+                .map(|left| &*left.sym)
+                .unwrap_or("-")
+        ));
     }
 
     fn visit_mut_stmts(&mut self, stmts: &mut Vec<Stmt>) {
         stmts.visit_mut_children_with(self);
+
+        #[cfg(feature = "verif-hooks")]
+        if !self.injecting_consts.is_empty() || !self.injecting_vars.is_empty() {
+            verif::event(format!(
+                "drain site=stmts vars={} consts={}",
+                self.injecting_vars.len(),
+                self.injecting_consts.len()
+            ));
+        }
 
         if !self.injecting_consts.is_empty() {
             stmts.insert(
@@ -1249,6 +1305,16 @@ where
 
     fn visit_mut_arrow_expr(&mut self, arrow_expr: &mut ArrowExpr) {
         arrow_expr.visit_mut_children_with(self);
+
+        #[cfg(feature = "verif-hooks")]
+        if !self.injecting_consts.is_empty() || !self.injecting_vars.is_empty() {
+            verif::event(format!(
+                "drain site=arrow expr_body={} vars={} consts={}",
+                matches!(&*arrow_expr.body, BlockStmtOrExpr::Expr(..)),
+                self.injecting_vars.len(),
+                self.injecting_consts.len()
+            ));
+        }
 
         if !self.injecting_consts.is_empty() || !self.injecting_vars.is_empty() {
             if let BlockStmtOrExpr::Expr(ret) = &*arrow_expr.body {
